@@ -98,20 +98,39 @@ def r3(c):
     fn = repo.func(TAB, "CommonFormatter._indent_blocks")
     c.count("functions")
     gm = GuardMap(fn)
+    loops = [n for n in walk_no_nested(fn) if isinstance(n, ast.For) and isinstance(n.target, ast.Name)]
+    augs = [n for n in walk_no_nested(fn) if isinstance(n, ast.AugAssign) and isinstance(n.target, ast.Name)]
+    if len(loops) != 1 or not augs or len({n.target.id for n in augs}) != 1:
+        raise AnchorError("_indent_blocks: the loop over the block stream / the level counter not found")
+    E, L = loops[0].target.id, augs[0].target.id
 
     def ren(s):
-        return {"row is BlockBegin": "begin", "BlockBegin is row": "begin", "row is BlockEnd": "end", "BlockEnd is row": "end"}.get(s, s)
+        return {f"{E} is BlockBegin": "begin", f"BlockBegin is {E}": "begin", f"{E} is BlockEnd": "end", f"BlockEnd is {E}": "end"}.get(s, s)
     env = G.GuardEnv(rename=ren)
-    inc = [n for n in walk_no_nested(fn) if isinstance(n, ast.AugAssign) and isinstance(n.op, ast.Add) and norm(n.target) == "_level"]
-    dec = [n for n in walk_no_nested(fn) if isinstance(n, ast.AugAssign) and isinstance(n.op, ast.Sub) and norm(n.target) == "_level"]
-    pre = [n for n in walk_no_nested(fn) if isinstance(n, ast.Assign) and norm(n.targets[0]) == "row" and "self._indent * _level" in norm(n.value)]
-    ok = len(inc) == 1 and len(dec) == 1 and len(pre) == 1
+    begin, end = G.Atom("begin"), G.Atom("end")
+    inc = [n for n in augs if isinstance(n.op, ast.Add)]
+    dec = [n for n in augs if isinstance(n.op, ast.Sub)]
+    ok = len(inc) == 1 and len(dec) == 1 and len(augs) == 2 and norm(inc[0].value) == "1" and norm(dec[0].value) == "1"
     if ok:
-        ok = G.equivalent(gm.formula(inc[0], env), G.Atom("begin")) and G.equivalent(gm.formula(dec[0], env), G.And(G.Not(G.Atom("begin")), G.Atom("end"))) and \
-            G.equivalent(gm.formula(pre[0], env), G.And(G.Not(G.Atom("begin")), G.Not(G.Atom("end")))) and norm(inc[0].value) == "1" and norm(dec[0].value) == "1"
-    c.check("C04.R3", ok, repo.loc(tm, fn), "_indent_blocks", "the indentation level is not +1 on BlockBegin / -1 on BlockEnd / prefix on rows", key_text="indent")
+        ok = G.equivalent(gm.formula(inc[0], env), begin) and G.equivalent(gm.formula(dec[0], env), G.And(G.Not(begin), end))
     ys = [n for n in walk_no_nested(fn) if isinstance(n, ast.Yield)]
-    c.check("C04.R3", len(ys) == 1 and gm.formula(ys[0]) == G.T, repo.loc(tm, fn), "_indent_blocks/yield-all", "not every element of the block stream is passed on", key_text="indent-yield")
+    yg = [gm.formula(y, env) for y in ys]
+    # where the indented form `self._indent * level + row` is built and which yield passes it on
+    indented = []
+    for n in walk_no_nested(fn):
+        if isinstance(n, ast.BinOp) and isinstance(n.op, ast.Add) and norm(n).replace(" ", "") in (f"self._indent*{L}+{E}", f"{L}*self._indent+{E}"):
+            st = gm.stmt(n)
+            if isinstance(st, ast.Assign) and isinstance(st.targets[0], ast.Name):
+                g = gm.formula(st, env)
+                if any(isinstance(y.value, ast.Name) and y.value.id == st.targets[0].id and G.implies(g, f) for y, f in zip(ys, yg)):
+                    indented.append(g)
+            elif isinstance(st, ast.Expr) and st.value in ys:
+                indented.append(gm.formula(st, env))
+    ok = ok and bool(indented) and G.equivalent(G.Or(*indented), G.And(G.Not(begin), G.Not(end)))
+    c.check("C04.R3", ok, repo.loc(tm, fn), "_indent_blocks", "the indentation level is not +1 on BlockBegin / -1 on BlockEnd / prefix on rows", key_text="indent")
+    once = all(not G.satisfiable(G.And(yg[i], yg[j])) for i in range(len(yg)) for j in range(i + 1, len(yg)))
+    c.check("C04.R3", bool(ys) and G.equivalent(G.Or(*yg), G.T) and once and all(gm.in_loop(y) for y in ys), repo.loc(tm, fn), "_indent_blocks/yield-all",
+            "not every element of the block stream is passed on exactly once", key_text="indent-yield")
     # parse_to_tree callers
     sites = []
     for m, q, f in repo.all_functions():
